@@ -762,6 +762,10 @@ def run_c13(rep, tier):
     calls = gen_c13(tier, common.seed())
     rep.evaluations = len(calls)
     obs = symobs.observe_many(calls, props=['C13'])
+    # one process, in order: symbols of different kinds with the same capacity and the same stream length, alternately
+    sess = gen.same_capacity_sessions(call, gen.rng(common.seed(), 'C13', 'session'), tier == 'quick')
+    rep.evaluations += len(sess)
+    obs += symobs.observe_many(sess, props=['C13'], procs=1)
     note_refusals(rep, obs)
 
     def key(o, v):
